@@ -353,6 +353,125 @@ fn judge_odd_ast(name: &str, ast: &crate::parser::AST, ctx: &mut Ctx) -> Judged 
     Ok(())
 }
 
+/// Bytecode files only an independent writer produces, whose meaning must not depend on the
+/// order a hash map happens to iterate in: one label name marking two places (the FML
+/// compiler numbers its labels, other compilers need not).  Whatever a build makes of such a
+/// file - FML takes the later definition - every run of every build must make the same of it.
+fn odd_files() -> Vec<(&'static str, crate::bc::model::Model)> {
+    use crate::bc::model::{Const, Ins};
+    use crate::props::c05::Asm;
+    let mut out = vec![];
+    // (1) one constant used by two label instructions of the entry method, jumped to once
+    {
+        let mut a = Asm::new();
+        let l = a.s("twice");
+        let end = a.s("end");
+        a.e(Ins::Goto(l));
+        a.e(Ins::Label(l));
+        a.print("first\\n", 0);
+        a.e(Ins::Goto(end));
+        a.e(Ins::Label(l));
+        a.print("second\\n", 0);
+        a.e(Ins::Label(end));
+        out.push(("one-label-name-two-places", a.finish(false)));
+    }
+    // (2) two equal string constants, each naming a label, in two different methods
+    {
+        let mut a = Asm::new();
+        let null = a.c(Const::Null);
+        a.consts.push(Const::Str("same".into()));
+        let l1 = (a.consts.len() - 1) as u16;
+        a.consts.push(Const::Str("same".into()));
+        let l2 = (a.consts.len() - 1) as u16;
+        let f1 = a.s("in f\\n");
+        let f = a.function("f", 0, 0, vec![Ins::Label(l1), Ins::Print(f1, 0), Ins::Return]);
+        let _ = f;
+        let fname = a.s("f");
+        a.e(Ins::Call(fname, 0));
+        a.e(Ins::Drop);
+        a.e(Ins::Lit(null));
+        a.e(Ins::Branch(l2)); // null is falsy: not taken; the goto below is
+        a.e(Ins::Goto(l2));
+        a.print("skipped\\n", 0);
+        a.e(Ins::Label(l2));
+        a.print("entry label\\n", 0);
+        out.push(("two-equal-constants-two-labels", a.finish(false)));
+    }
+    // (3) many names, each twice: sixteen chances per run for an order to show
+    {
+        let mut a = Asm::new();
+        for k in 0..16 {
+            let l = a.s(&format!("L{}", k));
+            let after = a.s(&format!("after{}", k));
+            a.e(Ins::Goto(l));
+            a.e(Ins::Label(l));
+            a.print(&format!("{}a ", k), 0);
+            a.e(Ins::Goto(after));
+            a.e(Ins::Label(l));
+            a.print(&format!("{}b ", k), 0);
+            a.e(Ins::Label(after));
+        }
+        a.print("\\n", 0);
+        out.push(("sixteen-names-twice-each", a.finish(false)));
+    }
+    out
+}
+
+fn judge_odd_file(name: &str, m: &crate::bc::model::Model, ctx: &mut Ctx) -> Judged {
+    ctx.eval();
+    let tag = if cfg!(debug_assertions) { "dev" } else { "release" };
+    let bytes = crate::bc::writer::write(m);
+    let case = || json!({"odd_file": name, "bytes": hex(&bytes)});
+    // in-process: loaded and run five times
+    let mut seen: Vec<(String, String)> = vec![];
+    for _ in 0..5 {
+        let r = match fmlrun::load(&bytes) {
+            Ok(p) => {
+                let x = fmlrun::run_stepped(&p, 100_000);
+                (format!("run:{}", x.exec.class()), x.out)
+            }
+            Err(_) => ("refused".to_string(), String::new()),
+        };
+        seen.push(r);
+    }
+    if seen.iter().any(|x| x != &seen[0]) {
+        return ctx.settle(Violation::new("run-nondeterministic", format!("file `{}` behaves differently from one load to the next in one process ({} engine): {:?}", name, tag, seen), case()).with("where", "in-process"));
+    }
+    let res: Result<(), Violation> = SCRATCH.with(|s| {
+        let mut s = s.borrow_mut();
+        if s.is_none() {
+            *s = Some(cli::Scratch::new("C11", tag));
+        }
+        let sc = s.as_mut().unwrap();
+        let f = sc.file("odd.bc");
+        std::fs::write(&f, &bytes).unwrap();
+        let herr = |e: String| Violation::new("harness-error", e, json!({}));
+        let mut outs: Vec<(String, bool, String)> = vec![];
+        let rel = cli::fml_release();
+        let dbg = cli::fml_debug();
+        for k in 0..14 {
+            let (bin, btag) = if k % 4 == 3 { (&dbg, "debug") } else { (&rel, "release") };
+            let o = cli::run_fml(bin, &["execute", f.to_str().unwrap()]).map_err(|e| herr(e.to_string()))?;
+            if let cli::Status::Signal(sig) = o.status {
+                return Err(Violation::new("run-nondeterministic", format!("file `{}`: `fml execute` ({} binary) dies on signal {}", name, btag, sig), case()).with("where", "processes"));
+            }
+            outs.push((btag.to_string(), o.status.success(), o.out_str()));
+        }
+        for x in &outs[1..] {
+            if x.1 != outs[0].1 || x.2 != outs[0].2 {
+                return Err(Violation::new("run-nondeterministic", format!("file `{}`: `fml execute` prints {:?} ({}) in one run ({} binary) and {:?} ({}) in another ({} binary)", name, outs[0].2, outs[0].1, outs[0].0, x.2, x.1, x.0), case()).with("where", "processes"));
+            }
+        }
+        Ok(())
+    });
+    if let Err(v) = res {
+        return ctx.settle(v);
+    }
+    ctx.label("hand-written-file");
+    ctx.nontrivial(format!("oddfile|{}|{}", name, tag).as_bytes());
+    Ok(())
+}
+
 impl Property for C11 {
     fn id(&self) -> &'static str {
         "C11"
@@ -388,6 +507,14 @@ impl Property for C11 {
             }
         }
         // programs that sit on the widths of the bytecode format: accepted or refused, but alike
+        for (i, (name, m)) in odd_files().iter().enumerate() {
+            if !ctx.shard_mine(i + 4) {
+                continue;
+            }
+            if let Err(v) = judge_odd_file(name, m, ctx) {
+                out.push(v);
+            }
+        }
         for (i, (name, ast)) in odd_asts().iter().enumerate() {
             if !ctx.shard_mine(i + 2) {
                 continue;
@@ -430,6 +557,11 @@ impl Property for C11 {
         if let Some(t) = case["tape"].as_str() {
             if let Some(bytes) = crate::tape::unhex(t) {
                 return self.judge_tape(&bytes, ctx);
+            }
+        }
+        if let Some(name) = case["odd_file"].as_str() {
+            if let Some((n, m)) = odd_files().into_iter().find(|(n, _)| *n == name) {
+                return judge_odd_file(n, &m, ctx);
             }
         }
         if let Some(name) = case["odd_ast"].as_str() {
